@@ -7,7 +7,7 @@ from ..runner import Case, Property
 class C19(Property):
     id = "C19"
     lean_module = "RosuModel.Props.C19Full"   # imports Props/C19Lipschitz.lean, Props/C19.lean (namespace Rosu.C19) and Props/C16Surplus.lean
-    theorem_modules = ['RosuModel.Props.C19Curve', 'RosuModel.Props.C19Ieee']   # files whose top-level theorems are all audited
+    theorem_modules = ['RosuModel.Props.C19Curve', 'RosuModel.Props.C19Ieee', 'RosuModel.Props.C19IeeePos']   # files whose top-level theorems are all audited
     namespace = "Rosu.C19"
     design_ref = "5.19"
     level_text = (
